@@ -416,6 +416,21 @@ func (cs *clientStream) doHttpCall(transport http.RoundTripper, req *http.Reques
 		close(cs.rCh)
 	}()
 
+	// The transport reads the request body from the pipe and cannot notice
+	// that the context is done while it is blocked there; a failed RoundTrip
+	// even waits for that read to end. Unblock it when the context ends, or
+	// this goroutine (and any caller of Header) would hang until the client
+	// happens to send again or to close the stream.
+	callDone := make(chan struct{})
+	defer close(callDone)
+	go func() {
+		select {
+		case <-cs.ctx.Done():
+			readPipe.CloseWithError(statusFromContextError(cs.ctx.Err()))
+		case <-callDone:
+		}
+	}()
+
 	onReady := func(err error, headers metadata.MD) {
 		cs.hdErr = err
 		cs.hd = headers
